@@ -33,17 +33,17 @@ Proof.
   split; [reflexivity|]. split; vm_compute; reflexivity.
 Qed.
 
-(* F5c: the loop has committed the step (it is evaluating the step's precondition) when the stop arrives; the Signal
-   pass finds the node not started; the step is then launched, its worker skips the command, and the node - and the
-   run - are reported finished *)
+(* F5c, repaired by ac08004: the loop has committed the step (it is evaluating the step's precondition) when the stop
+   arrives; the Signal pass finds the node not started; the step is then launched, its worker skips the command - and
+   the node is labelled canceled, the run canceled, onCancel then onExit run.  (Before the fix node and run were
+   reported finished and onSuccess ran: findings/C04-F5c-finished-without-running.json.) *)
 Definition f5c_exec : list label :=
-  [LCommit 0; SigFlag; SigNode false; LLaunch 0; WSkipExec 0; WFinish 0; LExit; HBegin; HStart HSuccess;
-   HEnd HSuccess true; HStart HExit; HEnd HExit true; HFinish].
-Lemma f5c_witness :
+  [LCommit 0; SigFlag; SigNode false; LLaunch 0; WSkipExec 0; WFinish 0; LExit; HBegin; HStart HCancel;
+   HEnd HCancel true; HStart HExit; HEnd HExit true; HFinish].
+Lemma f5c_repaired :
   exists s, run (one_step 1 false) (init (one_step 1 false)) f5c_exec = Some s /\ pc s = LDone /\
-    canceled s = true /\ st (nd s 0) = NSuccess /\ att (nd s 0) = 0 /\ dry (one_step 1 false) = false /\
-    overall (one_step 1 false) s = OSuccess /\ hstarts f5c_exec = [HSuccess; HExit] /\
-    run_clean (one_step 1 false) (init (one_step 1 false)) f5c_exec = None.
+    canceled s = true /\ st (nd s 0) = NCancel /\ att (nd s 0) = 0 /\ dry (one_step 1 false) = false /\
+    overall (one_step 1 false) s = OCancel /\ hstarts f5c_exec = [HCancel; HExit].
 Proof.
   eexists. split; [vm_compute; reflexivity|].
   repeat (split; [vm_compute; reflexivity|]). vm_compute; reflexivity.
@@ -87,7 +87,6 @@ Proof. split; [reflexivity|]. apply norepeat_mkcfgx. reflexivity. Qed.
 Lemma stop2_witness :
   exists s1 s2 s3, run two_steps (init two_steps) stop2_pre = Some s1 /\
     step two_steps s1 HBegin = Some s2 /\ run two_steps s2 stop2_post = Some s3 /\
-    run_clean two_steps (init two_steps) (stop2_pre ++ HBegin :: stop2_post) = Some s3 /\
     pc s3 = LDone /\ dry two_steps = false /\ timedout s3 = false /\ canceled s3 = canceled s1 /\
     overall two_steps s1 = OCancel /\ hstarts stop2_post = [HCancel; HExit] /\
     map (fun i => st (nd s3 i)) [0; 1] = [NCancel; NCancel] /\ pc s1 = LExited.
